@@ -554,16 +554,17 @@ def presence_guard(g):
     return None
 
 
-def diverges(n):
-    """the block / expression always leaves by return / break / continue (syntactic check of its last statement)"""
+def diverges(n, inl=True):
+    """the block / expression always leaves by return / break / continue (syntactic check of its last statement).  The
+    `return` of an inlined helper (InlRet) leaves the helper's block: it counts unless an inlined block lies in between."""
     n = peel(n, methods=False)
-    if n["k"] in ("Ret", "Break", "Continue"):
+    if n["k"] in ("Ret", "Break", "Continue") or (inl and n["k"] == "InlRet"):
         return True
     if n["k"] == "Block":
         last = n["expr"] if "expr" in n else (n["stmts"][-1] if n["stmts"] else None)
-        return last is not None and diverges(last)
+        return last is not None and diverges(last, inl and not n.get("inl"))
     if n["k"] == "If" and "e" in n:
-        return diverges(n["t"]) and diverges(n["e"])
+        return diverges(n["t"], inl) and diverges(n["e"], inl)
     return False
 
 
@@ -785,39 +786,45 @@ def _deep_exits(st):
             c = {"k": "Bin", "op": "&&", "sp": d.get("sp", "?"), "ty": "bool", "l": c, "r": d, "synthetic": True}
         return c
 
-    def rec(n, conds, in_loop):
+    def rec(n, conds, in_loop, in_inl=False):
         k = n["k"]
         if k == "Closure":
             return
-        if k in ("Ret",) or (k in ("Break", "Continue") and not in_loop):
+        if k == "Block" and n.get("inl") and n is not st:
+            # returns of an inlined helper end the helper only
+            for _key, ch in children(n):
+                if ch["k"] not in PAT_KINDS:
+                    rec(ch, conds, in_loop, True)
+            return
+        if k in ("Ret",) or (k == "InlRet" and not in_inl) or (k in ("Break", "Continue") and not in_loop):
             if conds:
                 out.append(("exit", conj(conds), False))
             return
         if k == "Loop":
             for _key, ch in children(n):
-                rec(ch, conds, True)
+                rec(ch, conds, True, in_inl)
             return
         if k == "If":
-            rec(n["c"], conds, in_loop)
-            rec(n["t"], conds + [n["c"]], in_loop)
+            rec(n["c"], conds, in_loop, in_inl)
+            rec(n["t"], conds + [n["c"]], in_loop, in_inl)
             if "e" in n:
-                rec(n["e"], conds + [{"k": "Un", "op": "!", "sp": n["c"].get("sp", "?"), "ty": "bool", "e": n["c"], "synthetic": True}], in_loop)
+                rec(n["e"], conds + [{"k": "Un", "op": "!", "sp": n["c"].get("sp", "?"), "ty": "bool", "e": n["c"], "synthetic": True}], in_loop, in_inl)
             return
         if k == "Match":
             if str(n.get("src", "")).startswith("TryDesugar") or n.get("src") == "ForLoopDesugar":
                 if n.get("src") == "ForLoopDesugar":
                     for a in n["arms"]:
-                        rec(a["body"], conds, True)
+                        rec(a["body"], conds, True, in_inl)
                 return
-            rec(n["scrut"], conds, in_loop)
+            rec(n["scrut"], conds, in_loop, in_inl)
             for a in n["arms"]:
                 c = {"k": "LetE", "sp": n.get("sp", "?"), "ty": "bool", "pat": a["pat"], "init": n["scrut"], "synthetic": True}
                 cs = conds + [c] + ([a["guard"]] if a.get("guard") is not None else [])
-                rec(a["body"], cs, in_loop)
+                rec(a["body"], cs, in_loop, in_inl)
             return
         for _key, ch in children(n):
             if ch["k"] not in PAT_KINDS:
-                rec(ch, conds, in_loop)
+                rec(ch, conds, in_loop, in_inl)
     rec(st, [], False)
     return out[:4]
 
